@@ -539,9 +539,16 @@ func (w *Worker) loadTyped(p Ptr, t types.Type) Value {
 func (w *Worker) fieldAddr(p Ptr, field int) Ptr {
 	p = w.toAlts(p)
 	if p.alts != nil {
-		alts := make([]altPtr, len(p.alts))
-		for i, a := range p.alts {
-			alts[i] = altPtr{a.g, w.fieldAddr(a.p, field)}
+		var alts []altPtr
+		for _, a := range p.alts {
+			if a.p.isNil() {
+				w.oblige(w.B.Not(a.g), "panic", "nil pointer dereference (field address)", w.curPos())
+				continue
+			}
+			alts = append(alts, altPtr{a.g, w.fieldAddr(a.p, field)})
+		}
+		if len(alts) == 0 {
+			panic(pathEnd{kind: "panic", msg: "nil pointer dereference"})
 		}
 		return Ptr{alts: alts}
 	}
@@ -740,8 +747,29 @@ func (w *Worker) sliceOp(fr *frame, ins *ssa.Slice) Value {
 
 // ---------- maps ----------
 
-func (w *Worker) mapLookup(m *MapV, k Value, vt types.Type) (Value, *Term) {
+func (w *Worker) mapLookup(m *MapV, k Value, vt types.Type) (rv Value, rf *Term) {
 	zero := w.zero(vt)
+	if w.inMerge == 0 {
+		defer func() {
+			if r := recover(); r != nil {
+				if _, ok := r.(mergeAbort); !ok {
+					panic(r)
+				}
+				// values that cannot be merged: fork on the key instead
+				for _, e := range m.entries {
+					eq := w.equal(e.k, k)
+					if eq.IsFalse() {
+						continue
+					}
+					if eq.IsTrue() || w.decide(eq) {
+						rv, rf = copyVal(e.v), w.B.True
+						return
+					}
+				}
+				rv, rf = zero, w.B.False
+			}
+		}()
+	}
 	if m == nil {
 		return zero, w.B.False
 	}
